@@ -493,3 +493,195 @@ def _rate_product(ctx) -> None:
                   f"the dose per pixel derived from dose_per_area is not area-per-pixel x dose_per_area: {why}",
                   key_detail="area-product")
     ctx.require(found >= 1, "poisson_noise: no assignment deriving total_dose from dose_per_area")
+
+
+# =============================================================================================
+# ---- added after seeded change C31-r5seed2: the ORDER of the ensemble axes the block function prepends agrees with
+# ---- the order of the axes the transform declares
+_inner_run_c31_axisorder = run
+
+_AX_SIZES = {"dose": 4, "sample": 3, "member": 2, "y": 5, "x": 7}
+_AX_BASE = ("y", "x")
+
+
+class _NoiseHooks:
+    """Leaves of the layout interpretation of NoiseTransform for one configuration (dose series or scalar dose,
+    several seeds or one).  The block is an array (member, y, x) with one ensemble axis of its own."""
+
+    def __init__(self, repo, cls, dose_series: bool, several_seeds: bool):
+        from ..rules import axislayout as L
+
+        self.L, self.repo, self.cls = L, repo, cls
+        self.leaf = {"dose": L.Obj(("dist", "dose")) if dose_series else L.Sc(_atom("dose")),
+                     "seeds": L.Obj(("dist", "sample")) if several_seeds else L.Sc(_atom("seed"))}
+
+    def _class(self, ident):
+        try:
+            return self.repo.find_class(ident)
+        except AnalysisError:
+            return None
+
+    def name(self, ident, interp):
+        c = self._class(ident)
+        return self.L.Obj(("class", c.name)) if c is not None else NotImplemented
+
+    def attr(self, base, attr, interp):
+        L = self.L
+        if not isinstance(base, L.Obj):
+            return NotImplemented
+        if base.tag == "self":
+            g = self.cls.find_method(attr, "getter")
+            if g is not None and g.is_property:
+                r = interp.run(g.body, {g.positional_params[0]: base})
+                return r[1] if r is not None and r[0] == "return" else NotImplemented
+            if g is None and attr.lstrip("_") in self.leaf:
+                return self.leaf[attr.lstrip("_")]
+            return NotImplemented
+        if base.tag == "block":
+            if attr in ("_eager_array", "array"):
+                return L.LA(("member",) + _AX_BASE, _atom("signal"))
+            if attr == "ensemble_axes_metadata":
+                return [L.Obj(("axis", "axis of the input", ("member",)))]
+            if attr == "ensemble_shape":
+                return (interp.sizes["member"],)
+            if attr == "base_shape":
+                return tuple(interp.sizes[a] for a in _AX_BASE)
+            if attr == "shape":
+                return (interp.sizes["member"],) + tuple(interp.sizes[a] for a in _AX_BASE)
+            return NotImplemented
+        if isinstance(base.tag, tuple) and base.tag[0] == "dist":
+            lab = base.tag[1]
+            if attr == "values":
+                return L.LA((lab,), _atom(f"{lab} values"))
+            if attr in ("shape", "ensemble_shape"):
+                return (interp.sizes[lab],)
+        return NotImplemented
+
+    def call(self, fname, args, kwargs, node, interp):
+        L = self.L
+        short = fname.split(".")[-1]
+        if short == "get_array_module":
+            return L.MOD
+        if short == "get_dtype":
+            return L.OPAQUE
+        if short == "isinstance" and len(args) == 2 and isinstance(args[1], L.Obj) and args[1].tag == (
+                "class", "BaseDistribution"):
+            if isinstance(args[0], L.Obj) and isinstance(args[0].tag, tuple) and args[0].tag[0] == "dist":
+                return True
+            if isinstance(args[0], (L.Sc, int, float)) or args[0] is None:
+                return False
+            return NotImplemented
+        if short == "len" and len(args) == 1 and isinstance(args[0], L.Obj) and isinstance(args[0].tag, tuple) \
+                and args[0].tag[0] == "dist":
+            return interp.sizes[args[0].tag[1]]
+        if short == "hasattr" and len(args) == 2 and isinstance(args[0], L.LA) and args[1] == "get":
+            return False  # a numpy array; a cupy array takes the other arm to the same layout
+        if isinstance(node.func, ast.Name):
+            c = self._class(short)
+            if c is not None and c.is_subclass_of("AxisMetadata"):
+                labels = []
+                for v in list(args) + list(kwargs.values()):
+                    if isinstance(v, L.LA) and v.rank == 1 and v.axes[0] not in (L.ONE, L.COMP):
+                        labels.append(v.axes[0])
+                    elif isinstance(v, (tuple, list)) and len(v) in interp.sizes.values():
+                        labels.append(interp.label_of_size(len(v)))
+                return L.Obj(("axis", c.name, tuple(dict.fromkeys(labels))))
+        return NotImplemented
+
+
+def _atom(name):
+    from ..terms import Poly
+
+    return Poly.atom(name)
+
+
+def _axis_order(ctx) -> None:
+    from ..rules import axislayout as L
+    from ..rules.absint import DomainError
+    from ..rules.ensemblelayout import LazyLayoutInterp
+
+    repo = ctx.repo
+    cls = repo.cls(NOISE, "NoiseTransform")
+    f = repo.method(NOISE, "NoiseTransform", "_calculate_new_array")
+    ctx.require(len(f.positional_params) == 2, f"{f.qualname}: expected (self, block)")
+    decl = cls.find_method("_out_ensemble_axes_metadata")
+    ctx.require(decl is not None and len(decl.positional_params) == 2,
+                "NoiseTransform._out_ensemble_axes_metadata(self, block) not found in the class hierarchy")
+
+    configs = [(d, s) for d in (False, True) for s in (False, True)]
+    produced: dict = {}
+    declared: dict = {}
+    for cfg in configs:
+        it = LazyLayoutInterp(_NoiseHooks(repo, cls, *cfg), _AX_SIZES)
+        try:
+            r = it.run(f.body, {f.positional_params[0]: L.Obj("self"), f.positional_params[1]: L.Obj("block")})
+        except DomainError as e:
+            produced[cfg] = e
+        else:
+            got = r[1] if r is not None and r[0] == "return" else None
+            if not isinstance(got, L.LA):
+                raise AnalysisError(f"R-AXISORDER: {f.qualname} does not return a labelled array")
+            if L.COMP in got.axes:
+                # np.stack([x] * n): n identical copies along a new axis
+                if len({it.canon(p) for p in got.val}) != 1:
+                    raise AnalysisError(f"R-AXISORDER: {f.qualname} stacks different arrays")
+                got = L.LA(tuple(it.label_of_size(len(got.val)) if a == L.COMP else a for a in got.axes), got.val[0])
+            produced[cfg] = got.axes
+        it = LazyLayoutInterp(_NoiseHooks(repo, cls, *cfg), _AX_SIZES)
+        r = it.run(decl.body, {decl.positional_params[0]: L.Obj("self"), decl.positional_params[1]: L.Obj("block")})
+        v = r[1] if r is not None and r[0] == "return" else None
+        if isinstance(v, tuple) and len(v) == 1 and isinstance(v[0], (list, tuple)):
+            v = v[0]
+        if not isinstance(v, (list, tuple)) or not all(
+                isinstance(e, L.Obj) and isinstance(e.tag, tuple) and e.tag[0] == "axis" for e in v):
+            raise AnalysisError(f"R-AXISORDER: {decl.qualname} does not return a list of axis metadata")
+        declared[cfg] = [e.tag for e in v]
+
+    # which distribution a declared axis without labelled values belongs to (SampleAxis()): the one whose presence
+    # alone makes the transform declare it
+    owner: dict[str, set] = {}
+    for cfg, lab in (((True, False), "dose"), ((False, True), "sample")):
+        bare = [t for t in declared[cfg] if not t[2]]
+        if len(bare) == 1:
+            owner.setdefault(bare[0][1], set()).add(lab)
+
+    def label(tag) -> str:
+        labs = set(tag[2]) if tag[2] else owner.get(tag[1], set())
+        if len(labs) != 1:
+            raise AnalysisError(f"R-AXISORDER: cannot tell which quantity the declared axis {tag[1]} describes "
+                                f"({sorted(labs) or 'no labelled values and no single owning distribution'})")
+        return next(iter(labs))
+
+    words = {True: ("a dose series", "several samples"), False: ("a scalar dose", "one seed")}
+    for cfg in configs:
+        what = f"{words[cfg[0]][0]} and {words[cfg[1]][1]}"
+        cname = f"{f.qualname}:ensemble axes:{'series' if cfg[0] else 'scalar'} dose, {'several seeds' if cfg[1] else 'one seed'}"
+        detail = f"axes-{'D' if cfg[0] else 'd'}{'S' if cfg[1] else 's'}"
+        names = [t[1] for t in declared[cfg]]
+        if isinstance(produced[cfg], DomainError):
+            e = produced[cfg]
+            ctx.violation("R-AXISORDER", cname, f.loc(e.node) if getattr(e, "node", None) is not None else f.where,
+                          f"with {what} the block function cannot assemble its result: {e}", key_detail=detail)
+            continue
+        want = tuple(label(t) for t in declared[cfg]) + _AX_BASE
+        got = produced[cfg]
+        ctx.check(got == want, "R-AXISORDER", cname, f.where,
+                  f"with {what} the returned array is laid out ({', '.join(got)}) as declared [{', '.join(names)}]",
+                  f"with {what} the array returned by {f.name} is laid out ({', '.join(got)}) but "
+                  f"{decl.qualname} declares the ensemble axes [{', '.join(names)}], i.e. ({', '.join(want)}): "
+                  "the axes metadata of the noisy measurement label the wrong array axes (entries filed under one "
+                  "dose hold counts drawn for another; for unequal lengths the shapes disagree)", key_detail=detail)
+
+
+def run(ctx) -> None:  # noqa: F811
+    ctx.rule("R-AXISORDER", "NoiseTransform._calculate_new_array is interpreted over labelled axes (which quantity "
+             "gives an axis its length: the dose values, the number of seeds, an ensemble axis of the input, the "
+             "base axes) for every combination of dose series / scalar dose and several seeds / one seed; the layout "
+             "of the returned array must be the sequence of ensemble axes that _out_ensemble_axes_metadata declares "
+             "for the same configuration (a declared axis is identified by the distribution its values come from, "
+             "an axis without values by the distribution whose presence alone declares it), followed by the base "
+             "axes.  Otherwise the counts found under `dose d, sample s` were drawn for another dose: their "
+             "expectation is not dose x signal")
+    from ..rules import deferred
+
+    deferred.run(ctx, lambda: _axis_order(ctx), _inner_run_c31_axisorder)
